@@ -408,6 +408,9 @@ ADDENDA = {
            "every scale and chains of real pyramid levels are compared with Pipeline.stepwiseInfo / stepwiseMethod / "
            "computeScales over the model downscalers.",
 }
+TRANSLATED = {"C01": "loop bounds", "C03": "the grid-test condition", "C05": "next_cmc", "C06": "half_chunk / chunk_fetch_factor",
+              "C09": "the uint64 masks and shard / minishard numbers", "C13": "the chunk boxes of the conversion loop",
+              "C20": "ceil_div and the per-axis chunk count"}
 LINKAGE_NOTE = (" Linkage audit on every run: every model definition a property theorem is stated over is reachable "
                 "from the compiled driver's main (so the correspondence run executes it next to the code) or is listed "
                 "in lean/linkage.json as specification-side; a gap is reported as a broken tie.")
@@ -428,7 +431,8 @@ def main():
                 "engine": "ngverif-lean",
                 "level_claimed": {"category": "proof", "text": c["text"] + ADDENDA.get(p, ""), "design_ref": c["ref"]},
                 "level_note": c["note"] + LINKAGE_NOTE,
-                "technique": c["technique"],
+                "technique": c["technique"] + (f" + source-to-Lean translation of {TRANSLATED[p]} re-proved equal to the model on every run"
+                                                if p in TRANSLATED else ""),
             })
         else:
             na.append({"property_id": p,
